@@ -264,8 +264,10 @@ class TypedNode(Node):
         if isinstance(child, self._tree.__class__):
             if deep is None:
                 deep = True
-            topnodes = child._root.children
-            if isinstance(before, (int, TypedNode)) or before is True:
+            # Iterate a copy: the source tree must not be modified
+            topnodes = list(child._root.children)
+            if before is True or (isinstance(before, int) and before is not False):
+                # All nodes are inserted at the same index: reverse to keep order
                 topnodes.reverse()
             for n in topnodes:
                 self.add_child(n, before=before, deep=deep)
